@@ -152,6 +152,10 @@ func Draw(t *sim.Tape, p DrawParams) *Workload {
 				st.Ops = append(st.Ops, simfn.Op{"op": "nameFrom", "field": "spec.size"})
 			}
 		}
+		if p.Readiness && i < nSteps-1 && t.Next(4) == 0 {
+			// an earlier step marks the XR ready (later steps may or may not keep that)
+			st.Ops = append(st.Ops, simfn.Op{"op": "xrReady", "field": "spec.noSuchField", "value": "true"})
+		}
 		if p.Fatal && p.RepeatedResults && t.Next(3) == 0 {
 			st.Ops = append(st.Ops, simfn.Op{"op": "result", "severity": "warning", "message": fmt.Sprintf("scripted fatal at s%d", i+t.Next(2))})
 		}
@@ -166,6 +170,10 @@ func Draw(t *sim.Tape, p DrawParams) *Workload {
 			}
 			st.Ops = append(st.Ops, simfn.Op{"op": "ready", "mode": mode, "items": "spec.readyNames"})
 			st.Ops = append(st.Ops, simfn.Op{"op": "xrReady", "field": "spec.xrReady"})
+			if p.Readiness && nSteps > 1 && t.Next(4) == 0 {
+				// the last step has no opinion of its own and does not pass on what earlier steps said
+				st.Ops = append(st.Ops, simfn.Op{"op": "xrReady", "field": "spec.noSuchField", "value": "unspecified"})
+			}
 			st.Ops = append(st.Ops, simfn.Op{"op": "status", "field": "seen", "from": "spec.size"})
 		}
 		if p.Conditions && t.Next(2) == 0 {
